@@ -90,6 +90,30 @@ def ordStr : Ordering → String
   | .eq => "0"
   | .gt => "1"
 
+def parseSigsAns (s : String) : Option (List AnsSig) :=
+  if s == "-" then some [] else
+  (s.splitOn ";").mapM fun p =>
+    match p.splitOn ":" with
+    | [o, l] => do
+      let o ← parseName o
+      let l ← l.toNat?
+      some { owner := o, labels := l }
+    | _ => none
+
+def parseDnames (s : String) : Option (List (Name × Name)) :=
+  if s == "-" then some [] else
+  (s.splitOn ";").mapM fun p =>
+    match p.splitOn ">" with
+    | [o, t] => do
+      let o ← parseName o
+      let t ← parseName t
+      some (o, t)
+    | _ => none
+
+def secStr0 : Except Err Bool → String
+  | .ok b => "ok secure=" ++ boolStr b
+  | .error e => e.str
+
 structure State where
   zone : Zone := { apex := [], nodes := [] }
   set : List Nsec := []
@@ -149,6 +173,26 @@ def stepNsec (st : State) (w : List String) : State × String :=
   | ["z", "dlg", sg, d] =>
     match parseName sg, parseName d with
     | some sg, some d => (st, unitStr (verifyDelegationNSEC d (filterToZone sg st.set)))
+    | _, _ => (st, "bad-op")
+  | ["z", "dname", q, ds] =>
+    match parseName q, parseDnames ds with
+    | some q, some ds => (st, match dnameTarget q ds with | some t => nameStr t | none => "-")
+    | _, _ => (st, "bad-op")
+  | ["z", "nxdd", sg, q, _t, ds] =>
+    match parseName sg, parseName q, parseDnames ds with
+    | some sg, some q, some ds =>
+      if !nameInZone q sg then (st, "notsigner") else
+      (st, unitStr (verifyNameErrorNSEC (proofName q ds) (filterToZone sg st.set)))
+    | _, _, _ => (st, "bad-op")
+  | ["z", "nodd", sg, q, t, ds] =>
+    match parseName sg, parseName q, t.toNat?, parseDnames ds with
+    | some sg, some q, some t, some ds =>
+      if !nameInZone q sg then (st, "notsigner") else
+      (st, unitStr (verifyNODATANSEC (proofName q ds) t (filterToZone sg st.set)))
+    | _, _, _, _ => (st, "bad-op")
+  | ["z", "wild", sg, sigs] =>
+    match parseName sg, parseSigsAns sigs with
+    | some sg, some gs => (st, secStr0 (verifyWildcardNSEC gs (filterToZone sg st.set)))
     | _, _ => (st, "bad-op")
   | ["z", "agg", sg, q, t, c] =>
     match parseName sg, parseName q, t.toNat?, c.toNat? with
@@ -240,6 +284,11 @@ def stepNsec3 (st : State) (w : List String) : State × String :=
     | some sg, some d, some ht =>
       (st, unitStr (verifyDelegation (htFn ht) (st.h.set.filter fun r => nameInZone r.owner sg) sg d))
     | _, _, _ => (st, "bad-op")
+  | ["h", "wild", sg, sigs, ht] =>
+    match parseName sg, parseSigsAns sigs, parseHT ht with
+    | some sg, some gs, some ht =>
+      (st, secStr (verifyWildcardNSEC3 (htFn ht) (st.h.set.filter fun r => nameInZone r.owner sg) sg gs))
+    | _, _, _ => (st, "bad-op")
   | ["h", "agg", sg, q, t, c, ht] =>
     match parseName sg, parseName q, t.toNat?, c.toNat?, parseHT ht with
     | some sg, some q, some t, some c, some ht =>
@@ -322,7 +371,7 @@ def stepExp (st : State) (w : List String) : State × String :=
         | some .nxdomain => "nx"
         | some .nodata => "nodata"
         | none => "miss"
-      ({ st with exp := pruneOnLookup st.exp q t }, s!"proof={pv} cut={if lookupCut st.exp q then "hit" else "miss"}")
+      ({ st with exp := pruneOnLookup st.exp q t }, s!"proof={pv} cut={if lookupCut st.exp q then "hit" else "miss"} cutw={if lookupCut st.exp q then "hit" else "miss"}")
     | _, _ => (st, "bad-op")
   | _ => (st, "bad-op")
 
